@@ -14,6 +14,7 @@ EXPLANATION = (
     "sent, stores CONNECTOK only after the denied-reason guard, the validator and the lookup of the requested object; silent "
     "failure only for ConnectionClosedError; the request receiver accepts exactly INVOKE and PING; the receive filter itself is sound; the "
     "client decodes the connect answer with the answer's serializer (so a refusal is readable). "
+    "Also decided: the failure answer's serializer id is known to exist; the answer's header names the serializer that encoded it and the answer is sent; the validator runs before the requested object's metadata is touched; the multiplex server closes what it does not accept. "
     "Not decided: bytes the peer observes, validators returning odd values."
 )
 
@@ -271,12 +272,12 @@ def run(ctx, R, tier):
         # or an id whose lookup already succeeded
         lookups = [n for st in H.body for n in walk_no_nested(st) if isinstance(n, ast.Subscript) and unparse(n.value).endswith("serializers_by_id")
                    and isinstance(n.slice, ast.Name)]
-        if not lookups:
-            raise AnalysisError("_handshake: the failure handler no longer picks its serializer from serializers_by_id[<id variable>]")
-        idvar = lookups[0].slice.id
+        idvar = lookups[0].slice.id if lookups else None
         cfg_h = ctx.cfg(f)
         bad_def = None
         for st, t, k in stores_in(f.node):
+            if idvar is None:
+                break       # the handler looks nothing up: nothing in it can fail that way (the header/encoder agreement below still applies)
             if not (isinstance(t, ast.Name) and t.id == idvar and k == "assign"):
                 continue
             okc, _v = ctx.const(st.value, f)
@@ -294,6 +295,26 @@ def run(ctx, R, tier):
                 f.loc(bad_def) if bad_def is not None else f.loc(H),
                 "`%s` adopts the peer's serializer id before it has been looked up: with an unknown id the failure handler's own lookup raises KeyError and the "
                 "peer gets no connect-failure at all" % (unparse(bad_def) if bad_def is not None else ""))
+    cfg_h0 = ctx.cfg(f)
+    # the validator decides first: nothing of the daemon's objects (metadata of the requested object) is touched before it has accepted the peer
+    vcalls_ = [c for c, _ in ctx.cg.calls_of(f) if isinstance(c.func, ast.Attribute) and c.func.attr == "validateHandshake"]
+    mcalls_ = [c for c, _ in ctx.cg.calls_of(f) if isinstance(c.func, ast.Attribute) and c.func.attr == "get_metadata"]
+    okv = len(vcalls_) == 1 and len(mcalls_) >= 1
+    if okv:
+        vst, vn = enclosing_stmt(vcalls_[0]), ctx.node_of(f, vcalls_[0])
+        for mc in mcalls_:
+            mst = enclosing_stmt(mc)
+            if mst is vst:
+                # same statement: evaluation order inside an expression - the validator call must come first in source order
+                okv = okv and (vcalls_[0].lineno, vcalls_[0].col_offset) < (mc.lineno, mc.col_offset) and not any(
+                    isinstance(a, ast.Dict) for a in ast.walk(mst) if isinstance(a, ast.Dict) and any(x is mc for v_ in a.values for x in ast.walk(v_))
+                    and any(x is vcalls_[0] for v_ in a.values for x in ast.walk(v_)) and
+                    [i for i, v_ in enumerate(a.values) if any(x is mc for x in ast.walk(v_))][0] < [i for i, v_ in enumerate(a.values) if any(x is vcalls_[0] for x in ast.walk(v_))][0])
+            else:
+                okv = okv and all(any(cfg_h0.dominates(a, b) for a in vn) for b in ctx.node_of(f, mc))
+    R.check(okv, "C08-R4", "_handshake|validator-before-metadata", "validateHandshake runs (and may refuse) before the requested object's metadata is looked up", f.loc(vcalls_[0]) if vcalls_ else f.loc(),
+            "get_metadata (a method of the registered daemon object, which inspects the requested class) runs before the validator has accepted the peer; a refused peer is also told "
+            "'unknown object' instead of the validator's reason")
     # the answer's header names the serializer that encoded its payload; and the answer is really sent
     sm = ctx.calls_to(f, "Pyro5.protocol.SendingMessage.__init__")
     cfg_f = ctx.cfg(f)
@@ -343,6 +364,8 @@ def run(ctx, R, tier):
     R3 = Rules("C03")
     c03.run(ctx, R3, tier)
     for o in R3.obs:
+        if o.key == "C03-R7|recv_stub|prefix-read-and-validated-first":
+            R.add("C08-R5", "recv_stub|prefix-read-and-validated-first", o.desc + " (a first message that is not a Pyro message is refused at once)", o.ok, o.loc, o.detail)
         if o.key == "C03-R7|recv_stub|filter-before-body":
             R.add("C08-R5", "recv_stub|filter-before-body", o.desc + " (the handshake's [MSG_CONNECT] restriction is enforced there)", o.ok, o.loc, o.detail)
     cah = ctx.fn("Pyro5.client.Proxy.__pyroCreateConnection.connect_and_handshake")
